@@ -137,6 +137,13 @@ func props() map[string]Prop {
 			},
 			Assume: []string{"a valid report followed by non-blank trailing bytes is a don't-care (the statement does not say)", "the FS storage backend stands for the bucket"},
 		},
+		{
+			ID: "C13", Level: "exploration",
+			Units: []Unit{
+				{Name: "worker", Module: "godev", Pkg: "cmd/worker", Harness: "godev_worker", Run: "^TestVerifC13$", Timeout: 30 * time.Minute},
+			},
+			Assume: []string{"the server's own configuration lists well-formed Go versions (goN.M[.P|rcK]) and semantic versions", "objects are named <day>/<X>.json as the upload endpoint names them, so one day holds one object per X"},
+		},
 	}
 	m := map[string]Prop{}
 	for _, p := range ps {
